@@ -299,9 +299,13 @@ func (vc *VC) ScriptWith(o *Obligation, style string, extra []string) string {
 	for _, d := range vc.decls[:o.NDecls] {
 		byName[declName(d)] = d
 	}
-	if g := obligationGroup(o.Name); g != "" {
+	{
+		// Layering: an obligation without a group is proved from the ungrouped
+		// clauses alone; an obligation of group G additionally keeps the clauses
+		// of G and of its sub-groups G.x. (Dropping hypotheses is always sound.)
+		g := obligationGroup(o.Name)
 		for n, og := range vc.groupOf {
-			if og != g {
+			if g == "" || (og != g && !strings.HasPrefix(og, g+".")) {
 				if _, ok := byName[n]; ok {
 					byName[n] = fmt.Sprintf("(define-fun %s () Bool true)", n)
 				}
@@ -823,7 +827,7 @@ func (vc *VC) fired(cl *Clause) {
 	vc.firedCS[cl] = true
 }
 
-var groupRe = regexp.MustCompile(`(?:^|[.:#])([A-Za-z][A-Za-z0-9]*)/[A-Za-z]`)
+var groupRe = regexp.MustCompile(`(?:^|[:#]|loop[0-9]+\.)([A-Za-z][A-Za-z0-9.]*)/[A-Za-z]`)
 
 // obligationGroup: the proof group of an obligation, from the clause label "G/label" in its name.
 func obligationGroup(name string) string {
